@@ -10,7 +10,9 @@ driven by the document alone:
              `x-dropshot-pagination` extension lists as required, no page token),
              optional ones sometimes, a body valid for the documented schema and
              content type  ->  must not be refused; status, content type and body
-             must be what the document lists for that status
+             must be what the document lists for that status (operations tagged
+             `framework-5xx-on-demand` may answer 5xx when the request asks for an
+             unserialisable response: that body must be the documented 5XX schema)
   follow-up  paginated operations: the `next_page` token of a response sent back
   negative   one `required: true` query parameter omitted  ->  must be 4xx
   errors     framework-generated errors (404, 405, malformed body, missing
@@ -39,7 +41,7 @@ from oas_schema import INT_FORMATS, Ctx, Gen, normalise_numbers  # noqa: E402
 
 PROP = "C07"
 ENGINE = "c07-zoo-replay"
-RULE = ("API zoo (54 operations: every extractor combination and response kind) served by the real dropshot "
+RULE = ("API zoo (63 operations: every extractor combination and response kind) served by the real dropshot "
         "server; per operation N positive requests built only from the published document, pagination follow-ups, "
         "one negative per required query parameter, malformed bodies, 404/405; class = (operationId, request "
         "variant, response status)")
@@ -437,8 +439,18 @@ class Replayer:
         if rep.want_sample() and i == 0:
             rep.sample({"operation": op.id, "request": "%s %s" % (op.method, built[0][:200]), "status": status})
         if status >= 400:
-            self.violate("valid-request-refused", {"status": status, "body": data[:300].decode("latin-1"),
-                                                   "request": desc, "content_type": built[2].get("content-type")})
+            # Operations tagged `framework-5xx-on-demand` document a parameter with which a valid
+            # request asks for a response value the framework cannot serialise: there a 5xx is the
+            # framework's legitimate answer, not a refusal.  Every other 4xx/5xx refuses a valid request.
+            on_demand = op.cls == "framework-5xx-on-demand" and status >= 500
+            if on_demand:
+                rep.count("framework_5xx_on_demand_seen")
+            else:
+                self.violate("valid-request-refused", {"status": status, "body": data[:300].decode("latin-1"),
+                                                       "request": desc,
+                                                       "content_type": built[2].get("content-type")})
+            # whoever raised it, the error body must be what the document lists for that status
+            self.check_response("positive-error", status, hdrs, data, desc)
             return
         self.check_response("positive", status, hdrs, data, desc)
         # pagination follow-up with the token the server issued
